@@ -75,6 +75,7 @@ func (fr *Frame) call(instr ssa.Instruction, c *ssa.CallCommon, st *State) *Val 
 	if b, ok := c.Value.(*ssa.Builtin); ok {
 		return fr.builtin(b, c, st, pos, resTy)
 	}
+	fr.emitOrderCheck(instr, c, st)
 	var args []*Val
 	for _, a := range c.Args {
 		args = append(args, fr.val(a))
@@ -585,4 +586,42 @@ func shortHeap(k string) string {
 		k = k[:40]
 	}
 	return k
+}
+
+// emitOrderCheck: in a function declared `deterministic`, a call with effects inside the body of a loop over a map
+// makes the produced output depend on the iteration order.
+func (fr *Frame) emitOrderCheck(instr ssa.Instruction, c *ssa.CallCommon, st *State) {
+	u := fr.u
+	if fr.depth != 0 || fr.contract == nil || !fr.contract.Deterministic {
+		return
+	}
+	b := instr.Block()
+	for h, body := range fr.loopBody {
+		if !body[b] {
+			continue
+		}
+		isMap := false
+		for _, in := range h.Instrs {
+			if nx, ok := in.(*ssa.Next); ok {
+				if rg, ok := nx.Iter.(*ssa.Range); ok {
+					if _, ok := rg.X.Type().Underlying().(*types.Map); ok {
+						isMap = true
+					}
+				}
+			}
+		}
+		if !isMap {
+			continue
+		}
+		name := "dynamic call"
+		if callee := c.StaticCallee(); callee != nil {
+			name = extName(callee)
+			if strings.HasPrefix(name, "strings.") || strings.HasPrefix(name, "strconv.") {
+				continue
+			}
+		} else if c.IsInvoke() {
+			name = ifaceMethodName(c)
+		}
+		u.oblige(fr, st, "order", "emit", "false", instr.Pos(), "call of "+name+" inside a loop over a map: what it emits depends on the iteration order")
+	}
 }
